@@ -53,11 +53,13 @@ AT_STATES = ['ERROR', 'IDLE', 'PARSE_PREFIX', 'PARSE_COMMAND_CHAR', 'UPDATE_COMM
              'AFTER_FLUSH_RESET', 'AFTER_FLUSH_OK', 'AFTER_FLUSH_FORMAT_READ_ARGS', 'AFTER_FLUSH_FORMAT_TEST_ARGS', 'PRINT_CMD']
 UN_STATES = ['IDLE', 'FORMAT_READ_ARGS', 'FORMAT_TEST_ARGS', 'READ_LOOP', 'TEST_LOOP', 'FLUSH_IO_WRITE_WAIT', 'FLUSH_IO_WRITE',
              'AFTER_FLUSH_RESET', 'AFTER_FLUSH_OK', 'AFTER_FLUSH_FORMAT_READ_ARGS', 'AFTER_FLUSH_FORMAT_TEST_ARGS']
-L1_PROPS = ['C01', 'C02', 'C03', 'C06', 'C09', 'C10', 'C11', 'C12', 'C14', 'C15', 'C16', 'C18', 'C20']
+L1_PROPS = ['C01', 'C02', 'C03', 'C06', 'C08', 'C09', 'C19', 'C10', 'C11', 'C12', 'C14', 'C15', 'C16', 'C18', 'C20']
 LEAF_REPLACE = ['parse_int_decimal', 'parse_uint_decimal', 'parse_num_hexadecimal', 'parse_buffer_hexadecimal', 'parse_buffer_string',
                 'validate_int_range', 'validate_uint_range']
 SHAPES = {
     'sh16': {'defines': ['H_BUFSZ=16', 'H_SHARED=1'], 'text': 'shared working buffer of 16 bytes (halves 8/8)', 'unwind': 18},
+    'sh32': {'defines': ['H_BUFSZ=32', 'H_SHARED=1'], 'text': 'shared working buffer of 32 bytes (halves 16/16)', 'unwind': 34},
+    'sep40': {'defines': ['H_BUFSZ=40', 'H_SHARED=0', 'H_UBUFSZ=6'], 'text': 'command buffer 40 bytes, separate event buffer 6 bytes', 'unwind': 42},
     'sep8': {'defines': ['H_BUFSZ=8', 'H_SHARED=0', 'H_UBUFSZ=6'], 'text': 'command buffer 8 bytes, separate event buffer 6 bytes', 'unwind': 10},
 }
 SHAPE_TEXT = '; pool of 3 commands in 1-2 groups, <= 2 variables each (all types/access modes, data_size 1..4), names <= 2 bytes over all byte values, every flag and handler subset, event queue capacity %d; all object scalars symbolic under Inv'
@@ -148,6 +150,9 @@ def jobs(tier):
         J.append(L1('un', st, 'sep8'))      # halves of different capacity (command 8, event 6)
     for st in ('READ_LOOP', 'TEST_LOOP', 'FORMAT_READ_ARGS', 'PARSE_COMMAND_ARGS'):
         J.append(L1('at', st, 'sep8'))
+    J.append(L1('at', 'PRINT_CMD', 'sh32'))
+    for st in ('FORMAT_TEST_ARGS', 'WAIT_TEST_ACKNOWLEDGE', 'AFTER_FLUSH_FORMAT_TEST_ARGS'):
+        J.append(L1('at', st, 'sep40'))
     for st in AT_STATES:
         if st not in ('READ_LOOP', 'TEST_LOOP', 'FORMAT_READ_ARGS', 'PARSE_COMMAND_ARGS'):
             J.append(L1('at', st, 'sep8', tiers=('thorough',)))
